@@ -15,3 +15,19 @@ reg("C16",
     explanation="every string over a boundary alphabet up to a length bound, every rid-like symbol word and template x component product, and every component 4-tuple is run through all 8 entry paths of the real types and compared with DFAs written from the specification grammar",
     level_text="Exhaustive exploration of a closed, finite string space (all strings up to the bound over an alphabet with one representative per character class and every class boundary) on the real parsing/deserialization entry points, against an independent recogniser. Exact validation is a per-string predicate with a tiny automaton, so small-scope exhaustiveness over class representatives is the right strength.",
     level_note="Trusted: the hand-written recognisers (40 lines, from the Conjure spec grammar); serde_json/serde_smile for rendering the probe documents. Strings longer than the bound and characters outside the alphabet are not covered.")
+
+reg("C15",
+    packages=["sweeps"], bin="sweeps", level="exploration", engine="E4 sweeps",
+    technique="bounded exhaustive enumeration of integer neighbourhoods through every construction/parsing/deserialization route of the real code, judged by the range predicate",
+    design_ref="DESIGN.md §3 C15",
+    explanation="every integer within a radius of every boundary centre (0, ±(2^53-1), ±2^k, ±10^k, top of u128) is pushed through ~50 routes (new, TryFrom x6, From x6, FromStr, PLAIN, JSON client/server from str/slice/reader, map keys, Smile, Any in each integer variant) and judged by |v| <= 2^53-1",
+    level_text="Exhaustive exploration of every boundary neighbourhood (the code is two comparisons plus width conversions, monotone between the centres) through every route on the real code.",
+    level_note="Trusted: serde_json/serde_smile to render probe documents; Rust integer formatting. Values further than the radius from every centre are assumed to behave like their neighbours.")
+
+reg("C12",
+    packages=["sweeps"], bin="sweeps", level="exploration", engine="E4 sweeps",
+    technique="bounded exhaustive enumeration of value grids/ranges through to_plain/from_plain of the real code, judged by round-trip identity and an independent PLAIN spelling model",
+    design_ref="DESIGN.md §3 C12",
+    explanation="per PLAIN-capable runtime type every value of a grid or full range (thorough: all 2^32 i32, all 2^32 f32-widened doubles) is formatted and parsed back; text is compared with independent encoders (Base64, uuid, decimal) or grammar checkers (number, RFC 3339)",
+    level_text="Exhaustive exploration of complete ranges where feasible (bool, i32, byte strings <= 2, f32-widened doubles) and of class-boundary grids elsewhere, on the real formatting/parsing code against an independent spelling model.",
+    level_note="Trusted: chrono's field constructors to build instants; std float parsing as the judge of 'same number'. Generated enums/aliases are covered by the E2 part when built.")
